@@ -91,6 +91,7 @@ type input struct {
 	Delays   [][]int    `json:"delays"` // per backend: microseconds per SendEvent call, cyclic
 	Compress string     `json:"compress"`
 	Fails    [][]int    `json:"fails"`     // per backend, cyclic per SendEvent call: 0 = nil, 1 = an error, 2 = context.Canceled, 3 = context.DeadlineExceeded
+	UpFaults []int      `json:"up_faults"` // forwarded: fault on the FIRST attempt of the n-th distinct event request, cyclic: 0 none, 1 = 503 after reading the body, 2 = connection closed after reading the body, 3 = slow
 	Overlap  bool       `json:"overlap"`   // WaitForEvents is also called from another goroutine while DispatchEvent calls are in progress
 	TapDelay []int      `json:"tap_delay"` // microseconds the pass-through handler takes per event, cyclic
 	Cancel   int        `json:"cancel"`    // > 0: cancel the dispatch contexts after that many microseconds
@@ -509,7 +510,42 @@ func runCase1(in input) (hlib.Case, *hlib.Case) {
 		if err != nil {
 			return hlib.Case{Input: in, Monitors: []string{"cannot build the ingestion server: " + err.Error()}, Class: in.Mode}, nil
 		}
-		srv = httptest.NewServer(hs.Router)
+		// a fault layer in front of the real ingestion server: the first attempt of some event requests
+		// fails after its body has been read (nothing is dispatched), every later attempt passes
+		var fmu sync.Mutex
+		seenBody := map[string]bool{}
+		nDistinct := 0
+		srv = httptest.NewServer(http.HandlerFunc(func(w http.ResponseWriter, req *http.Request) {
+			if len(in.UpFaults) > 0 && req.URL.Path == "/v2/event" {
+				body, _ := io.ReadAll(req.Body)
+				fmu.Lock()
+				f := 0
+				if !seenBody[string(body)] {
+					seenBody[string(body)] = true
+					f = in.UpFaults[nDistinct%len(in.UpFaults)]
+					nDistinct++
+				}
+				fmu.Unlock()
+				switch f {
+				case 1:
+					w.WriteHeader(http.StatusServiceUnavailable)
+					return
+				case 2:
+					if hj, ok := w.(http.Hijacker); ok {
+						if conn, _, err := hj.Hijack(); err == nil {
+							conn.Close()
+							return
+						}
+					}
+					w.WriteHeader(http.StatusBadGateway)
+					return
+				case 3:
+					time.Sleep(20 * time.Millisecond)
+				}
+				req.Body = io.NopCloser(bytes.NewReader(body))
+			}
+			hs.Router.ServeHTTP(w, req)
+		}))
 		defer srv.Close()
 	}
 	if in.Mode == "forwarded" {
@@ -518,7 +554,7 @@ func runCase1(in input) (hlib.Case, *hlib.Case) {
 		if in.Compress != "" && in.Compress != "none" {
 			compress, ctype = true, in.Compress
 		}
-		hfh, err := statsd.NewHttpForwarderHandlerV2(quiet, "default", srv.URL, 1, 8, 1, compress, ctype, 1, 5*time.Second, time.Second, nil, nil, pool, nil)
+		hfh, err := statsd.NewHttpForwarderHandlerV2(quiet, "default", srv.URL, 1, 8, 1, compress, ctype, 1, 2500*time.Millisecond, time.Second, nil, nil, pool, nil)
 		if err != nil {
 			return hlib.Case{Input: in, Monitors: []string{"cannot build the forwarder: " + err.Error()}, Class: in.Mode}, nil
 		}
@@ -1113,6 +1149,13 @@ func genCase(r *hlib.Rand, k int) input {
 			in.Delays[b] = []int{hlib.Pick(r, []int{200, 500, 900})}
 		}
 		in.Cancel = hlib.Pick(r, []int{50, 200, 600, 1500})
+	}
+	if in.Mode == "forwarded" && r.Chance(1, 4) {
+		// upstream faults: the forwarder must retry with the same payload (its backoff starts at 0.5 s)
+		for i, n := 0, r.Range(1, 3); i < n; i++ {
+			in.UpFaults = append(in.UpFaults, hlib.Pick(r, []int{0, 1, 1, 2, 3}))
+		}
+		in.UpFaults[r.Intn(len(in.UpFaults))] = hlib.Pick(r, []int{1, 2})
 	}
 	if in.Stream == "overlap" {
 		// a saturated semaphore behind slow backends, every DispatchEvent call in its own goroutine
